@@ -118,8 +118,10 @@ def check(module, cfg, tag, workers=16, coverage=False, dump=False, env=None, ti
     return r
 
 
-def simulate(module, cfg, tag, num, depth, seed, env=None, timeout=3600, workers=1):
-    """Random behaviours (list of [(label, state)]); seeded, one TLC start."""
+def simulate(module, cfg, tag, num, depth, seed, env=None, timeout=3600, workers=8):
+    """Random behaviours (list of [(label, state)]); seeded, one TLC start; `num` behaviours in
+    total, split over `workers` simulation workers (TLC's num is per worker)."""
+    num = max(1, (num + workers - 1) // workers)
     wd = _workdir(tag)
     trd = os.path.join(wd, 'tr')
     os.makedirs(trd)
@@ -245,4 +247,4 @@ def graph_cover(path, max_paths=None, rng=None):
         behs.append(beh)
         if max_paths and len(behs) >= max_paths:
             break
-    return behs, len(nodes), len(edges), len(covered)
+    return behs, len(nodes), len(set(edges)), len(covered)
